@@ -5,7 +5,7 @@ import numpy as np, pandas as pd
 from core import Result
 import proto, gen, implutil
 
-THEOREMS = ['C14_fit_no_stale_state', 'C14_shorthand', 'C14_reduce', 'C14_history_independence', 'C14_settings_history', 'C14_edges', 'C14_attr', 'C14_failed_fit', 'C14_table_kept', 'C14_translated_methods', 'C14_rebound_slots']
+THEOREMS = ['C14_fit_no_stale_state', 'C14_shorthand', 'C14_reduce', 'C14_history_independence', 'C14_settings_history', 'C14_edges', 'C14_attr', 'C14_failed_fit', 'C14_table_kept', 'C14_translated_methods', 'C14_rebound_slots', 'C14_group_mirror', 'C14_group_model_refit', 'C14_group_settings']
 RULE = ("random histories (4..10 operations) on one Bycycle object: construct (both burst methods, both centrings, thresholds given with full or SHORTHAND names or None, "
         "find_extrema_kwargs, return_samples) / fit on one of three signals / recompute_edges(reduction) / load / in-place threshold edit / threshold rebinding / burst option edit / "
         "attribute access; after every fit df_features must equal compute_features called on FRESH copies of the object's current settings (shorthand expanded), after "
@@ -205,6 +205,53 @@ def _group(c):
             if not get(idx).df_features.equals(exp): return 'after the group recompute_edges models%s is not the edge recomputation of its table with ITS thresholds' % list(idx)
             t = bg.df_features[idx[0]] if len(shp) == 1 else bg.df_features[idx[0]][idx[1]]
             if idx != first and not get(idx).df_features.equals(t): return 'after the group recompute_edges models%s.df_features is no longer df_features%s' % (list(idx), list(idx))
+        # the same history through the Lean group machine (BycycleModel/GroupMachine.lean, driver command group.trace): positions in row-major
+        # order; the provenance terms of the models' tables and of the group's own tables, evaluated with the functional API
+        from bycycle.features import compute_features
+        pos = list(np.ndindex(*shp)); n = len(pos)
+        th_m0 = m0.thresholds
+        memo = {}
+        def ev(t):
+            key = proto_render(t)
+            if key in memo: return memo[key]
+            if t[0] == 'cf':
+                peak, cyc, bk, th, fek, rs = t[1]
+                try:
+                    r = implutil.quiet(compute_features, sigs[pos[int(t[2])]], 250, (7.0, 13.0), center_extrema='peak' if peak == 'T' else 'trough', burst_method='cycles',
+                                       burst_kwargs={}, threshold_kwargs={k: _num(k, Fraction(q)) for k, q in th}, find_extrema_kwargs={'filter_kwargs': {'n_cycles': 3}}, return_samples=True)
+                except Exception as e:
+                    r = e
+            else:
+                base = ev(t[1])
+                try:
+                    r = implutil.quiet(rc_edges, base.copy(deep=True), {k: _num(k, Fraction(q)) for k, q in t[2]})
+                except Exception as e:
+                    r = e
+            memo[key] = r
+            return r
+        head = 'group.trace %s T [[min_n_cycles,2]] ' % proto.enc_bool(c['center'] == 'peak')
+        ops = lambda flags: '[' + ','.join(['[[gfit,%s],[T]]' % proto.enc_ints(range(n)), '[[mrebind,0,%s],[T]]' % _kv(th_m0), '[[mfit,0,0],[T]]',
+                                            '[[gedges,None],[%s]]' % ','.join(proto.enc_bool(f_) for f_ in flags)]) + ']'
+        flags = [True] * n
+        for _ in range(n + 1):
+            tr = proto.run_driver([head + ops(flags)])[0]
+            if not isinstance(tr, list) or (tr and tr[0] == 'bad-request'): return 'driver refused the group history: %r' % (tr,)
+            pre = tr[2][1]          # state before the group recomputation
+            want = list(flags)
+            for i in range(n):
+                if not flags[i]: break
+                mt = pre[3][i][2]
+                if mt == 'None' or isinstance(ev(['rc', mt, [[k, str(Fraction(v))] for k, v in (pre[3][i][0][3])]]), Exception): want[i] = False; break
+            if want == flags: break
+            flags = want
+        out, gst = tr[3]
+        for i, idx in enumerate(pos):
+            m = get(idx); t = bg.df_features[idx[0]] if len(shp) == 1 else bg.df_features[idx[0]][idx[1]]
+            mst, msig, mdf = gst[3][i]
+            if msig != str(i): return 'group machine: model %d holds signal %s' % (i, msig)
+            e1, e2 = ev(mdf), ev(gst[2][i])
+            if isinstance(e1, Exception) or not m.df_features.equals(e1): return 'group machine: models%s.df_features is not the model\'s %s' % (list(idx), proto_render(mdf)[:120])
+            if isinstance(e2, Exception) or not t.equals(e2): return 'group machine: df_features%s is not the model\'s %s' % (list(idx), proto_render(gst[2][i])[:120])
     return None
 
 def evaluate(ctx, cases):
